@@ -202,7 +202,8 @@ def check_add(c):
         s.read_from_raw(raw)
     else:
         s = cds.CdsShortTimestamp(c["days"], c["ms"])
-    if c.get("views_before") or route in ("from_datetime", "read_into_from_datetime"):
+    if c.get("views_before") or route in ("from_datetime", "read_into_from_datetime") or (c["days"] + c["ms"]) % 2 == 0:
+        # (also decided by the parity of the value: a drawn boolean alone is under-sampled on its True side)
         check_views(devs, s, c["days"], c["ms"], f"add.views_before.{route}")
     if wd > 65535:
         expect_raise(devs, "add.overflow", lambda: s + td, accept=(OverflowError,))
